@@ -1,8 +1,183 @@
-//! C04 — generator and driver of the real API.
+//! C04 — BWT, less, Occ (all sampling rates), inverse BWT.
+//!
+//! `<text> k:<k> a:<alphabet> q:<query symbols>`
+//!    => `<sa>;<bwt>;<less[c] for c in q>;<col(c)>/…  for c in q;<invert_bwt(bwt) or ->`
+//! col(c) = Occ.get(bwt, r, c) for r = 0..n-1, printed as `d<digits>` (first value and successive differences, one
+//! digit each) when all differences are in 0..=9, else as `v<v0>,<v1>,…`.
+//! The inverse is printed for single-sentinel texts only.
+use crate::c03::{any_text, many_sentinels};
 use crate::util::*;
+use bio::alphabets::Alphabet;
+use bio::data_structures::bwt::{bwt, invert_bwt, less, Occ};
+use bio::data_structures::suffix_array::suffix_array;
 
-pub fn gen(_tier: &str, _rng: &mut Rng, _out: &mut Vec<String>) {}
+fn col_str(col: &[usize]) -> String {
+    let mut d = String::with_capacity(col.len() + 1);
+    d.push('d');
+    let mut prev = 0usize;
+    let mut ok = true;
+    for &v in col {
+        if v >= prev && v - prev <= 9 {
+            d.push((b'0' + (v - prev) as u8) as char);
+        } else {
+            ok = false;
+            break;
+        }
+        prev = v;
+    }
+    if ok {
+        d
+    } else {
+        format!("v{}", join(col, ","))
+    }
+}
 
-pub fn exec(_toks: &[&str]) -> Result<String, String> {
-    Err("unimplemented".into())
+fn long_text(rng: &mut Rng) -> Vec<u8> {
+    let len = 250 + rng.below(380);
+    let alpha: Vec<u8> = match rng.below(4) {
+        0 => b"AC".to_vec(),
+        1 => b"ACGT".to_vec(),
+        2 => b"a".to_vec(),
+        _ => b"ACGTN".to_vec(),
+    };
+    let mut t: Vec<u8> = match rng.below(6) {
+        0 => {
+            let per = 1 + rng.below(5);
+            let w = rng.seq(&alpha, per);
+            (0..len).map(|i| w[i % per]).collect()
+        }
+        1 => crate::c03::fib_word(alpha[0], *alpha.last().unwrap(), len),
+        // long runs: blocks of one symbol (many equal checkpoints → early exit)
+        2 => {
+            let mut t = vec![];
+            while t.len() < len {
+                let c = *rng.pick(&alpha);
+                let run = 1 + rng.below(150);
+                t.extend(std::iter::repeat(c).take(run));
+            }
+            t.truncate(len);
+            t
+        }
+        // rare symbol in a sea of another one
+        3 => {
+            let mut t = vec![alpha[0]; len];
+            for _ in 0..1 + rng.below(6) {
+                let i = rng.below(len);
+                t[i] = *alpha.last().unwrap();
+            }
+            t
+        }
+        _ => rng.seq(&alpha, len),
+    };
+    // a few inner sentinels sometimes
+    if rng.chance(1, 3) {
+        for _ in 0..1 + rng.below(4) {
+            let i = rng.below(t.len());
+            t[i] = b'$';
+        }
+    }
+    t.push(b'$');
+    t
+}
+
+const KS: [usize; 13] = [1, 2, 3, 5, 8, 63, 64, 65, 66, 100, 127, 128, 129];
+
+fn case(rng: &mut Rng, i: usize) -> String {
+    let t = match i % 3 {
+        0 => any_text(rng, false, false, 30),
+        1 => any_text(rng, true, false, 120),
+        _ => {
+            if i % 120 == 2 {
+                {
+                    let m = 256 + rng.below(30);
+                    many_sentinels(rng, b'$', m)
+                }
+            } else {
+                long_text(rng)
+            }
+        }
+    };
+    let n = t.len();
+    let k = if rng.chance(1, 12) { 2 * n } else if n > 200 && rng.chance(1, 2) { *rng.pick(&KS[5..]) } else { *rng.pick(&KS) };
+    let sent = t[n - 1];
+    // alphabet: the text symbols, optionally without a `$` sentinel (Occ::new adds it), plus absent symbols
+    let mut a: Vec<u8> = t.clone();
+    a.sort();
+    a.dedup();
+    let max_other = *a.last().unwrap();
+    if sent == b'$' && max_other > b'$' && rng.chance(1, 2) {
+        a.retain(|&c| c != b'$');
+    }
+    for _ in 0..rng.below(4) {
+        let c = match rng.below(4) {
+            0 => rng.below(256) as u8,
+            1 => max_other.saturating_add(1),
+            2 => sent.saturating_add(1),
+            _ => *rng.pick(b"ACGTNXZ#%~"),
+        };
+        // symbols below the sentinel would break the "sentinel smallest" convention of the text only, not of
+        // the alphabet; they are legitimate absent symbols
+        a.push(c);
+    }
+    a.sort();
+    a.dedup();
+    let m = *a.last().unwrap() as usize + 1;
+    let mut q = a.clone();
+    if (b'$' as usize) < m && !q.contains(&b'$') {
+        q.push(b'$');
+    }
+    format!("{} k:{} a:{} q:{}", hex(&t), k, hex(&a), hex(&q))
+}
+
+pub fn gen(tier: &str, rng: &mut Rng, out: &mut Vec<String>) {
+    let n = if tier == "thorough" { 15_000 } else { 1_500 };
+    for i in 0..n {
+        out.push(case(rng, i));
+    }
+}
+
+pub fn exec(toks: &[&str]) -> Result<String, String> {
+    if toks.len() != 4 {
+        return Err("arity".into());
+    }
+    let t = unhex(toks[0])?;
+    let k: usize = parse(kv(toks[1], "k")?)?;
+    let a = unhex(kv(toks[2], "a")?)?;
+    let q = unhex(kv(toks[3], "q")?)?;
+    if t.is_empty() || t.len() > 100_000 {
+        return Err("text length".into());
+    }
+    let sent = t[t.len() - 1];
+    if t.iter().any(|&c| c < sent) {
+        return Err("sentinel not smallest".into());
+    }
+    if k == 0 || k > (1usize << 31) {
+        return Err("k".into());
+    }
+    if a.is_empty() {
+        return Err("empty alphabet".into());
+    }
+    let alphabet = Alphabet::new(&a);
+    let m = *a.iter().max().unwrap() as usize + 1;
+    // tracked symbols: the alphabet, and `$` when it is below the table size
+    let tracked = |c: u8| a.contains(&c) || (c == b'$' && (b'$' as usize) < m);
+    if !t.iter().all(|&c| tracked(c)) {
+        return Err("text symbol outside the alphabet".into());
+    }
+    if !q.iter().all(|&c| tracked(c)) {
+        return Err("query symbol not tracked".into());
+    }
+    let sa = suffix_array(&t);
+    let b = bwt(&t, &sa);
+    let le = less(&b, &alphabet);
+    let less_q: Vec<String> = q.iter().map(|&c| le.get(c as usize).map_or("n".to_string(), |v| v.to_string())).collect();
+    let occ = Occ::new(&b, k as u32, &alphabet);
+    let mut cols = vec![];
+    for &c in &q {
+        let col: Vec<usize> = (0..b.len()).map(|r| occ.get(&b, r, c)).collect();
+        cols.push(col_str(&col));
+    }
+    let single = t.iter().filter(|&&c| c == sent).count() == 1;
+    let inv = if single { hex(&invert_bwt(&b)) } else { "-".to_string() };
+    Ok(format!("{};{};{};{};{}", join(&sa, ","), hex(&b), less_q.join(","), cols.join("/"), inv))
 }
